@@ -265,6 +265,39 @@ func (w *wal) flush(batch WALBatch) error {
 	return nil
 }
 
+// moveCatalogRoot points the catalog row that names root page oldRoot at
+// newRoot.
+func moveCatalogRoot(fs *fileStore, oldRoot, newRoot, lsn uint64) error {
+	pg, err := fs.fetch(fs.pageTableRoot)
+	if err != nil {
+		return err
+	}
+	bt := &BTree{store: fs}
+	bt.setRoot(pg)
+	return bt.scanRight(func(cell *leafCell) (ScanAction, error) {
+		tuple := Tuple{
+			Relation: &pageTableSchema,
+			Vals:     make(map[string]interface{}),
+		}
+		if err := tuple.Decode(bytes.NewBuffer(cell.valueBytes)); err != nil {
+			return StopScanning, err
+		}
+		if offset, ok := tuple.Vals["file_offset"].(int64); !ok || uint64(offset) != oldRoot {
+			return KeepScanning, nil
+		}
+		tuple.Vals["file_offset"] = int64(newRoot)
+		buf, err := tuple.Encode()
+		if err != nil {
+			return StopScanning, err
+		}
+		if err := cell.pg.updateCell(cell.key, buf.Bytes()); err != nil {
+			return StopScanning, err
+		}
+		cell.pg.markDirty(lsn)
+		return StopScanning, nil
+	})
+}
+
 func (w WALBatch) replay(fs *fileStore) error {
 	for _, row := range w {
 		if row.LSN >= fs._nextLSN {
@@ -288,6 +321,14 @@ func (w WALBatch) replay(fs *fileStore) error {
 			}
 			if err := fs.incrementLastKey(); err != nil {
 				return err
+			}
+			if bt.rootOffset != row.pageID {
+				// the redone insert split the root of its table. the catalog
+				// must follow even if the root-move record that was logged
+				// after this one did not make it into the log.
+				if err := moveCatalogRoot(fs, row.pageID, bt.rootOffset, row.LSN); err != nil {
+					return err
+				}
 			}
 
 		case OpUpdate:
